@@ -9,15 +9,16 @@ import zlib
 import numpy as np
 
 from sim import filgen
-from sim.core import open_reader, SimLivelock, Violation
+from sim.core import nint, open_reader, SimLivelock, Violation
 from sim.disk import SimDisk
 
 from .c02 import after_list_removal, gen_big_files, gen_files, warm  # noqa: F401
 
 ID = "C01"
+VARY_ARGFORM = True  # integer call arguments also arrive as numpy integer scalars
 SHRINK_LISTS = ("ops", "faults", ("files", "nsamps"))
 SHRINK_MIN = {"nchans": 1, "nbits": 1, "gulp": 1}
-SHRINK_SIMPLE = {"consumer": "plain", "allocator": None, "k4": None, "abandon_at": None}
+SHRINK_SIMPLE = {"consumer": "plain", "allocator": None, "k4": None, "abandon_at": None, "argform": "int", "peek": None, "made_early": None}
 
 
 # ------------------------------------------------------------------ generation
@@ -73,6 +74,14 @@ def gen_plan(rng, N, bounds) -> dict:
         op["abandon_at"] = rng.randint(0, 4)
     if rng.random() < 0.1:
         op["k4"] = gulp if rng.random() < 0.5 else rng.randint(1, N + 1)  # same block size as reader A half of the time
+    # the plan object is made some time BEFORE it is iterated: when the previous plan is made (windows
+    # listed up front, consumed one after another), or with a quick read_block look in between
+    r = rng.random()
+    if r < 0.08:
+        op["made_early"] = True
+    elif r < 0.16 and N >= 1:
+        st = rng.randint(0, N - 1)
+        op["peek"] = [st, rng.randint(1, N - st)]
     return op
 
 
@@ -97,6 +106,9 @@ def fixup(sc):
         o["skipback"] = max(0, o["skipback"])
         if o.get("k4") is not None:
             o["k4"] = max(1, o["k4"])
+        if o.get("peek"):
+            o["peek"][0] = max(0, min(o["peek"][0], N - 1))
+            o["peek"][1] = max(1, min(o["peek"][1], N - o["peek"][0]))
     sc["faults"] = [x for x in sc["faults"] if 0 <= x.get("op", -1) < len(sc["ops"])]
     return sc
 
@@ -271,14 +283,34 @@ def execute(sc, ctx) -> None:
     truncated = False
     after_fault = False
 
+    def make_plan(op):
+        """Make the plan object the way a caller does.  Whether the arguments are examined now or on the
+        first next() is the library's business: an exception now is delivered on the first next()."""
+        kw = {}
+        if op["allocator"]:
+            kw["allocator"] = make_allocator(op["allocator"], ctx)
+        try:
+            return iter(reader.read_plan(gulp=nint(op["gulp"]), start=nint(op["start"]), nsamps=nint(op["nsamps"]), skipback=nint(op["skipback"]), quiet=True, **kw))
+        except Exception as e:  # noqa: BLE001
+            def deferred(_e=e):
+                raise _e
+                yield  # pragma: no cover
+            ctx.probe("plan-refused-at-creation")
+            return deferred()
+
+    early = {}
     with SimDisk(ctx, sc["faults"]) as sim:
         reader = open_reader("C01", fs.paths)
         for i, op in enumerate(sc["ops"]):
+            nxt = sc["ops"][i + 1] if i + 1 < len(sc["ops"]) else None
+            if op["op"] == "plan" and nxt is not None and nxt["op"] == "plan" and nxt.get("made_early") and not sc["faults"]:
+                early[i + 1] = make_plan(nxt)  # before THIS plan is made and consumed
+                ctx.probe("plan-made-before-the-previous-one-was-consumed")
             if op["op"] == "read_block":
                 sim.begin_op(i, budget=64 * (nfiles + 2))
                 fired0 = sum(ctx.faults.values())
                 try:
-                    blk = np.asarray(reader.read_block(op["start"], op["nsamps"]).data)
+                    blk = np.asarray(reader.read_block(nint(op["start"]), nint(op["nsamps"])).data)
                 except Exception as e:  # noqa: BLE001
                     if sum(ctx.faults.values()) > fired0 or truncated:
                         continue
@@ -313,12 +345,16 @@ def execute(sc, ctx) -> None:
                     "N": N, "eff": eff, "nbits": nbits, "nfiles": nfiles, "sreg": sreg, "eof": eof,
                     "consumer": op["consumer"], "allocator": op["allocator"], "op_index": i}
             tagbase = f"{eof}/{sreg}"
-            kw = {}
             alloc = op["allocator"]
             if alloc:
-                kw["allocator"] = make_allocator(alloc, ctx)
                 ctx.probe(alloc[:2])
-            gen = reader.read_plan(gulp=gulp, start=op["start"], nsamps=op["nsamps"], skipback=s, quiet=True, **kw)
+            gen = early.pop(i, None) or make_plan(op)
+            if op.get("peek") and not sc["faults"]:
+                # a quick look at some other range between making the plan and iterating it
+                pk = np.asarray(reader.read_block(op["peek"][0], op["peek"][1]).data)
+                if not filgen.same_bits(pk.astype(np.float32), fs.samples[op["peek"][0] : op["peek"][0] + op["peek"][1]].T.astype(np.float32)):
+                    raise Violation("C01/read_block-between-plans/wrong-data", "read_block between making a plan and iterating it", {"api": "read_block", "peek": op["peek"]})
+                ctx.probe("read_block-between-making-and-iterating-a-plan")
             # probes that depend only on the arguments
             if gulp > nsamps:
                 ctx.probe("gulp>nsamps")
